@@ -34,8 +34,8 @@ func (o wOp) String() string {
 	switch o.Kind {
 	case "withdraw", "cancel", "process", "approve":
 		return fmt.Sprintf("%s%v%s", o.Kind, o.IDs, o.Var)
-	case "rbf":
-		return fmt.Sprintf("rbf(%d,%d)", o.IDs[0], o.Arg)
+	case "rbf", "rbf+cancel":
+		return fmt.Sprintf("%s(%d,%d)", o.Kind, o.IDs[0], o.Arg)
 	case "replace":
 		return fmt.Sprintf("replace(p%d)%s", o.Pid, o.Var)
 	case "finalize":
@@ -168,7 +168,7 @@ func (in *c05Inst) Menu(nd mc.Node, depth int) []wOp {
 		if n.wd[id].Status == "" {
 			continue
 		}
-		m = append(m, wOp{Kind: "rbf", IDs: []uint64{id}, Arg: 5}, wOp{Kind: "rbf", IDs: []uint64{id}, Arg: 20}, wOp{Kind: "cancel", IDs: []uint64{id}},
+		m = append(m, wOp{Kind: "rbf", IDs: []uint64{id}, Arg: 5}, wOp{Kind: "rbf", IDs: []uint64{id}, Arg: 20}, wOp{Kind: "cancel", IDs: []uint64{id}}, wOp{Kind: "rbf+cancel", IDs: []uint64{id}, Arg: 5},
 			wOp{Kind: "process", IDs: []uint64{id}}, wOp{Kind: "approve", IDs: []uint64{id}})
 	}
 	if n.wd[1].Status != "" && n.wd[2].Status != "" {
@@ -413,6 +413,17 @@ func (in *c05Inst) Step(nd mc.Node, op wOp, path []wOp, silent bool) mc.Node {
 		gotErr = k.ProcessBridgeRequest(bctx, goattypes.BridgeRequests{ReplaceByFees: []*goattypes.ReplaceByFeeRequest{{Id: id, TxPrice: uint64(op.Arg)}}})
 		if w := next.wd[id]; w.Status == "pending" || w.Status == "processing" {
 			w.MaxPrice = uint64(op.Arg)
+			next.wd[id] = w
+		}
+	case "rbf+cancel":
+		// a fee update and a cancellation request for the same withdrawal in one execution block
+		id := op.IDs[0]
+		gotErr = k.ProcessBridgeRequest(bctx, goattypes.BridgeRequests{ReplaceByFees: []*goattypes.ReplaceByFeeRequest{{Id: id, TxPrice: uint64(op.Arg)}}, Cancel1s: []*goattypes.Cancel1Request{{Id: id}}})
+		if w := next.wd[id]; w.Status == "pending" || w.Status == "processing" {
+			w.MaxPrice = uint64(op.Arg)
+			if w.Status == "pending" {
+				w.Status = "canceling"
+			}
 			next.wd[id] = w
 		}
 	case "cancel":
@@ -673,7 +684,7 @@ func runC05(r *mc.Run) {
 		r.SetBudget(150 * 1e9)
 	}
 	r.Bounds["depth_actions"] = depth
-	r.Rule = "DFS over interleavings of user requests (withdraw with good/undecodable address, fee update lower/higher, cancel) and relayer actions (process [1],[2],[1,2],[1,1], +change; replace; finalize original/each replacement/unknown txid; approve [id],[1,2],[1,1],[1,2,1]; hand-over) over ids 1..3 with a 2-member quorum; every step compared with a reference life-cycle model; in every distinct state all ill-formed variants of the enabled actions (25 kinds: script, amount, fee rate, outputs, change key, quorum, payload, fee not higher, identical tx, forged/unvoted/other-header/aliased-index proofs, sender) are applied on throw-away branches and must fail without changing the store"
+	r.Rule = "DFS over interleavings of user requests (withdraw with good/undecodable address, fee update lower/higher, cancel, fee update + cancel in one block) and relayer actions (process [1],[2],[1,2],[1,1], +change; replace; finalize original/each replacement/unknown txid; approve [id],[1,2],[1,1],[1,2,1]; hand-over) over ids 1..3 with a 2-member quorum; every step compared with a reference life-cycle model; in every distinct state all ill-formed variants of the enabled actions (25 kinds: script, amount, fee rate, outputs, change key, quorum, payload, fee not higher, identical tx, forged/unvoted/other-header/aliased-index proofs, sender) are applied on throw-away branches and must fail without changing the store"
 	r.Assumptions = []string{"withdrawal ids are unique and issued in order by the bridge contract", "voted block hashes for finalisation are injected into BlockHashes", "fee rates in the alphabet are exactly representable (float comparison in the code is exact below 2^40)"}
 	ill := &sync.Map{}
 	s := &mc.Search[wOp]{Run: r, Depth: depth, NewInstance: func() (mc.Instance[wOp], error) { return newC05Inst(r, ill) }}
